@@ -25,5 +25,8 @@ def check(A):
     R.asgi_body_rule(A, 'C15')
     R.asgi_header_codec_rule(A, 'C15')
     R.driver_environ_rule(A, 'C15')
+    R.cors_rules(A, 'C15')
+    for fl in FLAVOURS:
+        S.get_request_rules(A, fl, 'C15')
     R.generate_id_rules(A, 'C15')
     R.driver_response_rules(A, 'C15')
